@@ -279,6 +279,12 @@ var c14Derived = []struct {
 			_, _, _ = influxql.ConditionExpr(q.Condition, &influxql.NowValuer{Now: time.Unix(1e9, 0).UTC()})
 		}
 	}},
+	{"RewriteTimeFields(on a clone)", func(q *influxql.SelectStatement) { q.Clone().RewriteTimeFields() }},
+	{"RewriteDistinct/RewriteRegexConditions(on a clone)", func(q *influxql.SelectStatement) {
+		c := q.Clone()
+		c.RewriteDistinct()
+		c.RewriteRegexConditions()
+	}},
 	{"Names", func(q *influxql.SelectStatement) {
 		_ = q.Fields.Names()
 		_ = q.Fields.AliasNames()
@@ -424,7 +430,11 @@ func propC14(o *out, r *rng, thorough bool) {
 		"SELECT v FROM (SELECT v FROM m WHERE time > now() GROUP BY time(1m, now())) WHERE time < now() + 1h", "SELECT DISTINCT a FROM m", "SELECT count(DISTINCT a), top(b, c, 3) FROM m WHERE time > now() - 1h AND (h = 'x' OR h =~ /^a$/)",
 		// name queries that build scratch field lists or look through parentheses
 		"SELECT top(value, host, 2), other FROM cpu", "SELECT bottom(v, a, b, 3), x, y, z FROM cpu", "SELECT x, top(v, host, region, 1), y AS yy, z FROM m", "SELECT (a + b) FROM cpu", "SELECT (a), ((b)), (c + d) AS e FROM m",
-		"SELECT (value) FROM m WHERE (host) = 'a'", "SELECT top(v, t1, 2), top(v, t2, 2), w FROM m", "SELECT \"usage%\", \"usage%\" FROM m", "SELECT host::tag, v::float FROM m WHERE host::tag = 'a' AND v::float > 5"} {
+		"SELECT (value) FROM m WHERE (host) = 'a'", "SELECT top(v, t1, 2), top(v, t2, 2), w FROM m", "SELECT \"usage%\", \"usage%\" FROM m", "SELECT host::tag, v::float FROM m WHERE host::tag = 'a' AND v::float > 5",
+		// time on the right of every comparison, bounds inside groups with other predicates, calls without arguments
+		"SELECT v FROM m WHERE 10 < time AND 20 >= time", "SELECT v FROM m WHERE '2000-01-01T00:00:00Z' <= time AND now() > time", "SELECT v FROM m WHERE host = 'a' AND (region = 'b' AND time >= 100 AND 200 > time)",
+		"SELECT v FROM m WHERE 5 = time", "SELECT v FROM m WHERE time > now() - 1h AND now() + 1m > time GROUP BY time(5m, now())", "SELECT now(), f() FROM m WHERE g() = 1",
+		"SELECT time, v, time AS t2 FROM m", "SELECT v, time FROM m"} {
 		c14One(o, w, r, "witness")
 	}
 	for i := 0; i < n; i++ {
